@@ -16,6 +16,11 @@
 //     reply reaches the user (bounded-progress watchdog 20 s; first exchange 40 s) — before and after a
 //     stress burst, and after the work connection (or the whole session) was cut at a relay: loss is
 //     tolerated only inside the window [cut, first completed exchange].
+//     3b. replacement cycles (tcpMux off, frpc without TLS behind the relay): with the users silent, only the
+//     work connections are cut; re-establishment is over when the relay has seen frps hand a new work
+//     connection to every udp proxy (StartWorkConn frame on a connection made after the cut) plus 1 s.
+//     From then on every light-load exchange must complete - no datagram may be spent on "warming up"
+//     the replaced connection. Three cycles in a row on the same tunnel.
 //  4. tunnel closed under traffic (session cut at the relay in the middle of a burst against a child
 //     frps; sudp visitor frpc stopped in the middle of a burst): the process must survive / stop
 //     without a crash, and the tunnel must carry light-load traffic again afterwards.
@@ -167,6 +172,7 @@ type env struct {
 	visitorText  string   // its configuration (to restart it)
 	visitor      *h.Child // current visitor process
 	stressBig    bool     // stress bursts use near-full-size datagrams
+	plainWire    bool     // frpc without TLS: the relay sees the message types on every connection
 }
 
 func (e *env) close() {
@@ -226,7 +232,7 @@ loginFailExit = false
 udpPacketSize = %d
 transport.tcpMux = %v
 transport.poolCount = %d
-`, port, token, e.w.Size, e.w.Mux, e.rng.Intn(2))
+%s`, port, token, e.w.Size, e.w.Mux, e.rng.Intn(2), map[bool]string{true: "transport.tls.enable = false\n"}[e.plainWire])
 }
 
 type tunSpec struct {
@@ -629,9 +635,9 @@ func (e *env) recoverWindow(max time.Duration) bool {
 
 func oneCase(c *h.Case) {
 	rng := c.Rng
-	nIdle, nClose := 2, 4
+	nIdle, nClose, nRepl := 2, 4, 6
 	if run.Thorough() {
-		nIdle, nClose = 8, 24
+		nIdle, nClose, nRepl = 8, 24, 60
 	}
 	if c.Idx < nIdle {
 		idleCase(c)
@@ -639,6 +645,10 @@ func oneCase(c *h.Case) {
 	}
 	if c.Idx < nIdle+nClose {
 		closeCase(c, c.Idx-nIdle)
+		return
+	}
+	if c.Idx < nIdle+nClose+nRepl {
+		replaceCase(c)
 		return
 	}
 	r := rng.Intn(100)
@@ -654,13 +664,30 @@ func oneCase(c *h.Case) {
 	}
 }
 
+// pickWorld: the worlds with the largest accepted udpPacketSize (above 7168) get one case in ten; schedules
+// that are about something else than sizes (idle expiry, close under traffic) stay at 1500..7168.
+func pickWorld(rng *rand.Rand, withLargest bool) *world {
+	var std, big []*world
+	for _, w := range worlds {
+		if w.Size > 7168 {
+			big = append(big, w)
+		} else {
+			std = append(std, w)
+		}
+	}
+	if withLargest && len(big) > 0 && rng.Intn(10) == 0 {
+		return big[rng.Intn(len(big))]
+	}
+	return std[rng.Intn(len(std))]
+}
+
 func newEnv(c *h.Case, w *world) *env {
 	return &env{c: c, cs: newCaseState(c), w: w, rng: c.Rng, pfx: fmt.Sprintf("c%d.", c.Idx), relays: map[string]*h.TCPRelay{}}
 }
 
 func trafficCase(c *h.Case, kind string, withCut bool) {
 	rng := c.Rng
-	w := worlds[rng.Intn(len(worlds))]
+	w := pickWorld(rng, true)
 	e := newEnv(c, w)
 	defer e.close()
 	nTun := 1 + rng.Intn(2)
@@ -810,7 +837,7 @@ func idleCase(c *h.Case) {
 	if c.Idx >= 2 && c.Idx%4 >= 2 {
 		kind = "sudp"
 	}
-	w := worlds[rng.Intn(len(worlds))]
+	w := pickWorld(rng, false)
 	e := newEnv(c, w)
 	defer e.close()
 	spec := tunSpec{Kind: kind, Enc: rng.Intn(2) == 0, Comp: rng.Intn(2) == 0, VEnc: rng.Intn(2) == 0, VComp: rng.Intn(2) == 0}
@@ -970,7 +997,7 @@ func closeCase(c *h.Case, k int) {
 		e.tally("close")
 		run.Distinct(fmt.Sprintf("close|%s|%d|%v|%v|%v|%s", variant, w.Size, w.Mux, specs, per, sig.sig()))
 	case "visitor-stopped-in-burst":
-		w := worlds[rng.Intn(len(worlds))]
+		w := pickWorld(rng, false)
 		c.Data["world"] = map[string]any{"udpPacketSize": w.Size, "tcpMux": w.Mux, "visitor": "child process"}
 		e := newEnv(c, w)
 		defer e.close()
@@ -1009,5 +1036,95 @@ func closeCase(c *h.Case, k int) {
 	run.Count("cases_close", 1)
 	if k < 2 {
 		run.Sample(map[string]any{"case": c.Idx, "kind": "close", "variant": variant, "world": c.Data["world"], "rounds": rounds})
+	}
+}
+
+// replaceCase: the work connection of a udp proxy is replaced while nobody sends; when the relay has seen the
+// replacement being handed to the proxy, the very first datagrams afterwards must arrive.
+func replaceCase(c *h.Case) {
+	rng := c.Rng
+	var cand []*world
+	for _, w := range worlds {
+		if !w.Mux && w.Size <= 7168 {
+			cand = append(cand, w)
+		}
+	}
+	w := cand[rng.Intn(len(cand))]
+	e := newEnv(c, w)
+	defer e.close()
+	e.plainWire = true
+	specs := []tunSpec{{Kind: "udp", Enc: rng.Intn(2) == 0, Comp: rng.Intn(2) == 0}}
+	if rng.Intn(3) == 0 {
+		specs = append(specs, tunSpec{Kind: "udp", Enc: rng.Intn(2) == 0, Comp: rng.Intn(2) == 0})
+	}
+	per := make([]int, len(specs))
+	for i := range per {
+		per[i] = 1 + rng.Intn(4)
+	}
+	cycles := 3
+	c.Data["kind"], c.Data["cycles"], c.Data["tunnels"], c.Data["users_per_tunnel"] = "replace", cycles, specs, per
+	c.Data["world"] = map[string]any{"udpPacketSize": w.Size, "tcpMux": w.Mux}
+	if err := e.build(specs, true); err != nil {
+		run.Inconclusive("setup: " + trimErr(err))
+		return
+	}
+	if err := e.addUsers(per); err != nil || !e.first() {
+		return
+	}
+	sig := &lenSig{}
+	if !e.lightRound(e.genLight(1, sig, false), exWait) {
+		return
+	}
+	relay := e.relays["owner"]
+	for cyc := 1; cyc <= cycles; cyc++ {
+		e.cs.quiesce(200*time.Millisecond, 5*time.Second)
+		before := len(relay.Pairs())
+		n := e.cut("owner", true)
+		tCut := h.Now()
+		c.Ev("cut", "cycle", cyc, "connections_closed", n, "relayed_connections_so_far", before)
+		run.Count("cuts", 1)
+		run.Count("cuts_work_connection_only", 1)
+		// re-establishment is over when frps has sent StartWorkConn on as many connections made after the cut
+		// as there are udp proxies (nobody sends datagrams meanwhile: frps replaces the connection by itself)
+		handed := 0
+		ok := h.Eventually(45*time.Second, func() bool {
+			handed = 0
+			ps := relay.Pairs()
+			for _, p := range ps[before:] {
+				if _, down := p.Captured(); len(down) > 0 && down[0] == 's' {
+					handed++
+				}
+			}
+			return handed >= len(specs)
+		})
+		if !ok {
+			c.Ev("no-replacement", "cycle", cyc, "handed", handed)
+			run.Inconclusive("replacement work connection not observed at the relay within 45 s")
+			return
+		}
+		c.Ev("replaced", "cycle", cyc, "after_ms", (h.Now()-tCut)/1e6, "new_connections", len(relay.Pairs())-before, "start_work_conn_seen_on", handed)
+		time.Sleep(time.Second)
+		note := fmt.Sprintf(" — replacement cycle %d: the relay cut only the work connections (control connection untouched, no datagram in flight), frps handed new work connections to all %d udp proxies (StartWorkConn seen at the relay %d ms after the cut) and this datagram was sent at least 1 s after that", cyc, len(specs), (h.Now()-tCut)/1e6-1000)
+		plan := map[*user][]exSpec{}
+		for _, u := range e.users {
+			for i := 0; i < 4; i++ {
+				sp := pickSpec(rng, w.Size, false)
+				sp.Delay = 0
+				sp.ArriveKey, sp.LossKey, sp.Note = "datagram-lost-after-work-connection-was-replaced", "reply-lost-after-work-connection-was-replaced", note
+				plan[u] = append(plan[u], sp)
+				sig.add(sp)
+			}
+		}
+		if !e.lightRound(plan, exWait) {
+			e.tally(fmt.Sprintf("cycle-%d", cyc))
+			return
+		}
+		run.Count("replacement_cycles", 1)
+	}
+	e.tally("replace")
+	run.Count("cases_replace", 1)
+	run.Distinct(fmt.Sprintf("replace|%d|%v|%v|%s", w.Size, specs, per, sig.sig()))
+	if c.Idx%3 == 0 {
+		run.Sample(map[string]any{"case": c.Idx, "kind": "replace", "world": c.Data["world"], "tunnels": specs, "users_per_tunnel": per, "cycles": cycles})
 	}
 }
